@@ -23,10 +23,23 @@ const DOM: OptDomain = OptDomain {
 
 fn gen(r: &mut Rng, _cfg: &RunCfg) -> Case {
     if r.coin() {
+        if r.chance(1, 5) {
+            // through WrapAlgorithm::FirstFit.wrap(&[Word], &[usize]) with up to 12 listed widths
+            let mut c = Case::new("algo");
+            c.frags = frag::finite_frags(r, Scale::Small, 60, false);
+            for f in c.frags.iter_mut() {
+                f.ws = f.ws.min(8.0);
+                f.pw = f.pw.min(1.0);
+            }
+            let max = if r.coin() { 12 } else { 3 };
+            c.lws = frag::line_widths(r, Scale::Small, max, &c.frags);
+            return c;
+        }
         let mut c = Case::new("frag");
         let scale = *r.pick(&[Scale::Small, Scale::Small, Scale::Dyadic, Scale::Large]);
         c.frags = frag::finite_frags(r, scale, 60, false);
-        c.lws = frag::line_widths(r, scale, 3, &c.frags);
+        let max = if r.chance(1, 4) { 12 } else { 3 };
+        c.lws = frag::line_widths(r, scale, max, &c.frags);
         c
     } else {
         let text = gen_text(r, TextDomain::Any);
@@ -36,12 +49,67 @@ fn gen(r: &mut Rng, _cfg: &RunCfg) -> Case {
     }
 }
 
+const XS: &str = "xxxxxxxxxxxxxxxxxxxxxxxxxxxxxxxxxxxxxxxxxxxxxxxxxxxxxxxxxxxxxxxx";
+const SP: &str = "                ";
+
+/// Words whose cached width / whitespace / penalty equal the given small integer fragments.
+pub fn words_for(frags: &[Frag]) -> Option<Vec<textwrap::core::Word<'static>>> {
+    let mut v = Vec::with_capacity(frags.len());
+    for f in frags {
+        if f.w.fract() != 0.0 || f.ws.fract() != 0.0 || f.w < 0.0 || f.w > 64.0 || f.ws < 0.0 || f.ws > 16.0 || !(f.pw == 0.0 || f.pw == 1.0) {
+            return None;
+        }
+        v.push(textwrap::core::Word { word: &XS[..f.w as usize], whitespace: &SP[..f.ws as usize], penalty: if f.pw == 1.0 { "-" } else { "" }, width: f.w as usize });
+    }
+    Some(v)
+}
+
+/// Partition by pointer for &[Word] results.
+pub fn word_partition(words: &[textwrap::core::Word], lines: &[&[textwrap::core::Word]]) -> Result<Vec<usize>, String> {
+    if words.is_empty() {
+        return if lines.len() == 1 && lines[0].is_empty() { Ok(vec![0]) } else { Err("empty input must give one empty line".into()) };
+    }
+    let mut pos = 0;
+    let mut parts = Vec::new();
+    for l in lines {
+        if l.is_empty() || pos >= words.len() || l.as_ptr() != words[pos..].as_ptr() || pos + l.len() > words.len() {
+            return Err(format!("line starting at fragment {} is not the next non-empty run", pos));
+        }
+        pos += l.len();
+        parts.push(l.len());
+    }
+    if pos != words.len() {
+        return Err("lines do not cover the input".into());
+    }
+    Ok(parts)
+}
+
 fn check_frag(case: &Case, obs: &mut Obs) -> Verdict {
-    let lines = textwrap::wrap_algorithms::wrap_first_fit(&case.frags, &case.lws);
-    obs.calls += 1;
-    let parts = match check_partition(&case.frags, &lines) {
-        Ok(p) => p,
-        Err(_) => return Verdict::Skipped("not a partition (reported under C06)"),
+    let parts = if case.sub == "algo" {
+        let words = match words_for(&case.frags) {
+            Some(w) => w,
+            None => return Verdict::Skipped("fragments not representable as Words"),
+        };
+        if case.lws.iter().any(|w| w.fract() != 0.0 || *w < 0.0) {
+            return Verdict::Skipped("line widths not representable as usize");
+        }
+        let lws: Vec<usize> = case.lws.iter().map(|w| *w as usize).collect();
+        let lines = textwrap::WrapAlgorithm::FirstFit.wrap(&words, &lws);
+        obs.calls += 1;
+        if lws.len() > 8 {
+            obs.bump("algo_wrap_more_than_8_widths");
+        }
+        match word_partition(&words, &lines) {
+            Ok(p) => p,
+            Err(_) => return Verdict::Skipped("not a partition (reported under C06)"),
+        }
+    } else {
+        let lines = textwrap::wrap_algorithms::wrap_first_fit(&case.frags, &case.lws);
+        obs.calls += 1;
+        match check_partition(&case.frags, &lines) {
+            Ok(p) => p,
+            Err(_) => return Verdict::Skipped("not a partition (reported under C06)"),
+        }
     };
     if case.frags.is_empty() {
         return Verdict::held(false, 0);
@@ -50,7 +118,7 @@ fn check_frag(case: &Case, obs: &mut Obs) -> Verdict {
         obs.out = Some(J::Arr(parts.iter().map(|p| J::u(*p)).collect()));
     }
     if let Err(e) = check_greedy(&case.frags, &case.lws, &parts) {
-        return Verdict::Violated(format!("wrap_first_fit: {}", e));
+        return Verdict::Violated(format!("{}: {}", if case.sub == "algo" { "WrapAlgorithm::FirstFit.wrap" } else { "wrap_first_fit" }, e));
     }
     if parts.len() >= 2 {
         obs.bump("frag_multi_line");
@@ -63,7 +131,7 @@ fn check_frag(case: &Case, obs: &mut Obs) -> Verdict {
     }
     Verdict::held(
         parts.len() >= 2,
-        h(&[0, bucket(case.frags.len()), bucket(parts.len()), case.lws.len() as u64, case.frags.iter().any(|f| f.pw > 0.0) as u64, case.frags.iter().any(|f| f.w.fract() != 0.0) as u64]),
+        h(&[(case.sub == "algo") as u64 * 7, bucket(case.frags.len()), bucket(parts.len()), case.lws.len() as u64, case.frags.iter().any(|f| f.pw > 0.0) as u64, case.frags.iter().any(|f| f.w.fract() != 0.0) as u64]),
     )
 }
 
@@ -238,7 +306,7 @@ fn check_text(case: &Case, obs: &mut Obs) -> Verdict {
 }
 
 pub fn check(case: &Case, obs: &mut Obs) -> Verdict {
-    if case.sub == "frag" {
+    if case.sub == "frag" || case.sub == "algo" {
         check_frag(case, obs)
     } else {
         check_text(case, obs)
@@ -288,6 +356,32 @@ fn extra(cfg: &RunCfg, w: &mut Worker) {
             }
         }
     }
+    // long sequences: many hundreds of lines, several line widths (state carried across many iterations)
+    {
+        let mut r = Rng::stream(cfg.seed, &["C07", "long"], w.id as u64);
+        let reps = if cfg.thorough { 12 } else { 2 };
+        for k in 0..reps {
+            let n = r.range(300, 3000);
+            let mut c = Case::new(if k % 2 == 0 { "frag" } else { "algo" });
+            c.frags = (0..n).map(|_| Frag { w: r.range(0, 4) as f64, ws: r.range(0, 1) as f64, pw: r.below(2) as f64 }).collect();
+            let nl = r.range(1, 12);
+            c.lws = (0..nl).map(|_| r.range(2, 12) as f64).collect();
+            w.run_case(&c);
+            *w.stats.counters.entry("long_sequences".to_string()).or_insert(0) += 1;
+        }
+        // long paragraph at the text level with indents of different widths
+        let words = r.range(300, 900);
+        let mut text = String::new();
+        for _ in 0..words {
+            text.push_str(*r.pick(&["aaa ", "bb ", "c ", "dddd ", "你好 ", "e-mail "]));
+        }
+        let mut o = crate::case::OptSpec::new(r.range(6, 14));
+        o.ii = "    ".to_string();
+        o.si = if r.coin() { String::new() } else { "é".to_string() };
+        o.split = crate::case::Split::Hyphen;
+        w.run_case(&wrap_case("text", text, o));
+        *w.stats.counters.entry("long_paragraphs".to_string()).or_insert(0) += 1;
+    }
     // exhaustive small strings at the text level
     super::c01::exhaustive_strings(cfg, w, if cfg.thorough { 6 } else { 4 }, "text", true);
     if w.id == 0 {
@@ -302,13 +396,13 @@ fn extra(cfg: &RunCfg, w: &mut Worker) {
 pub fn prop() -> Prop {
     Prop {
         id: "C07",
-        rule: "fragment level (1/2): integer (small / up to 2^20) and dyadic fragment sequences of length 0..60 with line-width lists of length 0..3; the returned partition is checked against the statement (every non-first fragment of a line fitted, the first fragment of the next line did not). text level (1/2): hostile texts (dirty sequences included) with first-fit options (all separators / splitters, break_words, indents of different widths); the returned lines must equal the greedy arrangement of the paragraph's pipeline fragments (with or without the library's leading sentinel, rendered penalty optional). + exhaustive small fragments and small strings. non-trivial = >= 2 lines; distinct = (level, length / option shape, line bucket, line-width list length / paragraph bucket, penalties, fractional)",
+        rule: "fragment level (1/2): integer (small / up to 2^20) and dyadic fragment sequences of length 0..60 with line-width lists of length 0..12 (also through WrapAlgorithm::FirstFit.wrap with Word fragments and usize widths); the returned partition is checked against the statement (every non-first fragment of a line fitted, the first fragment of the next line did not). text level (1/2): hostile texts (dirty sequences included) with first-fit options (all separators / splitters, break_words, indents of different widths); the returned lines must equal the greedy arrangement of the paragraph's pipeline fragments (with or without the library's leading sentinel, rendered penalty optional). + exhaustive small fragments and small strings. non-trivial = >= 2 lines; distinct = (level, length / option shape, line bucket, line-width list length / paragraph bucket, penalties, fractional)",
         gen,
         check,
         panic_is_violation: false,
         budget: (2400000, 72000000),
         extra: Some(extra),
-        required: &["frag_multi_line", "frag_several_line_widths", "frag_with_penalties", "text_multi_line", "text_different_indent_widths", "text_multi_paragraph"],
+        required: &["long_sequences", "long_paragraphs", "algo_wrap_more_than_8_widths", "frag_multi_line", "frag_several_line_widths", "frag_with_penalties", "text_multi_line", "text_different_indent_widths", "text_multi_paragraph"],
         known: None,
     }
 }
